@@ -2921,6 +2921,9 @@ class Summarizer(Evaluator):
                 return self._unrolled(n, [('key', x) for x in vk[1]], st)
         it_node, target, body = n.iter, n.target, n.body
         idx_name, start = None, None
+        cnt = self._counting_loop(n, st)
+        if cnt is not None:
+            return cnt
         items = self._items_iter(it_node, target)
         if items is not None:
             mp, kt, vt = items
@@ -3000,6 +3003,69 @@ class Summarizer(Evaluator):
                 self._bind_target(target, base, body_st)
         return self._loop(n, st, gens_key, bind, body=body,
                           extra_assigned=(idx_name,) if idx_name else ())
+
+    def _counting_loop(self, n, st):
+        """`for x in xs: d[k(x)] += 1` on a defaultdict(int), or
+        `d[k] = d.get(k, 0) + 1` on a dict: d becomes the tally of k over
+        xs -- one form for both spellings."""
+        if n.orelse or len(n.body) != 1:
+            return None
+        b = n.body[0]
+        tgt = None
+        form = None
+        if isinstance(b, ast.AugAssign) and isinstance(b.op, ast.Add) \
+                and isinstance(b.value, ast.Constant) and b.value.value == 1 \
+                and isinstance(b.target, ast.Subscript):
+            tgt, form = b.target, 'default'
+        elif isinstance(b, ast.Assign) and len(b.targets) == 1 and isinstance(
+                b.targets[0], ast.Subscript) and isinstance(
+                b.value, ast.BinOp) and isinstance(b.value.op, ast.Add):
+            l, r = b.value.left, b.value.right
+            if isinstance(l, ast.Constant) and l.value == 1:
+                l, r = r, l
+            if isinstance(r, ast.Constant) and r.value == 1:
+                t = b.targets[0]
+                if isinstance(l, ast.Subscript) and ast.dump(
+                        l.value) == ast.dump(t.value) and ast.dump(
+                        l.slice) == ast.dump(t.slice):
+                    tgt, form = t, 'default'
+                elif isinstance(l, ast.Call) and isinstance(
+                        l.func, ast.Attribute) and l.func.attr == 'get' \
+                        and ast.dump(l.func.value) == ast.dump(t.value) \
+                        and len(l.args) == 2 and ast.dump(
+                            l.args[0]) == ast.dump(t.slice) and isinstance(
+                            l.args[1], ast.Constant) \
+                        and l.args[1].value == 0:
+                    tgt, form = t, 'plain'
+        if tgt is None or not isinstance(tgt.value, ast.Name):
+            return None
+        name = tgt.value.id
+        pv = st.env.get(name)
+        if pv is None or name not in self.locals_:
+            return None
+        pk = key(pv)
+        is_default = pk[0] == 'call' and self._call_name(pk[1]) in (
+            'defaultdict', 'collections.defaultdict') and pk[2] == (
+            ('name', 'int'),) and not pk[3]
+        if not ((form == 'default' and is_default)
+                or (form == 'plain' and (pk == ('dict', ()) or is_default))):
+            return None
+        uses = sum(1 for x in ast.walk(n) if isinstance(x, ast.Name)
+                   and x.id == name)
+        if uses != (1 if form == 'default' and isinstance(
+                b, ast.AugAssign) else 2):
+            return None
+        it = self.k(n.iter, st)
+        base = ('bv', self.depth)
+        body_st = State(dict(st.env), dict(st.heap), [])
+        self._bind_target(n.target, base, body_st)
+        self.depth += 1
+        try:
+            kk = self.k(tgt.slice, body_st)
+        finally:
+            self.depth -= 1
+        st.env[name] = ('tally', kk, ((base, it, ()),))
+        return [(st, None)]
 
     def _is_len(self, node):
         return isinstance(node, ast.Call) and isinstance(
